@@ -191,3 +191,31 @@ Ltac qprop :=
   | H : Qle_bool _ _ = true |- _ => apply Qle_bool_iff in H
   | H : Qle_bool _ _ = false |- _ => apply Qle_bool_false in H
   end.
+
+(* ---- strictly increasing edge lists ------------------------------------------------------------------- *)
+Lemma qnth_cons x t b : 0 < b -> qnth (x :: t) b = qnth t (b - 1).
+Proof.
+  intros H. unfold qnth. replace (Z.to_nat b) with (S (Z.to_nat (b - 1))) by lia. reflexivity.
+Qed.
+
+Lemma incrb_head x t : incrb (x :: t) = true -> forall c, 0 <= c < len t -> (x < qnth t c)%Q.
+Proof.
+  revert x. induction t as [|y t IH]; intros x H c Hc.
+  - unfold len in Hc. cbn in Hc. lia.
+  - cbn [incrb] in H. apply andb_prop in H. destruct H as [Hxy Ht]. apply Qltb_lt in Hxy.
+    destruct (Z.eq_dec c 0) as [->|Hne].
+    + exact Hxy.
+    + rewrite qnth_cons by lia. apply Qlt_trans with y; [exact Hxy|].
+      apply IH; [exact Ht|]. rewrite len_cons in Hc. lia.
+Qed.
+
+Lemma incrb_incr E : incrb E = true -> incr E.
+Proof.
+  induction E as [|x t IH]; intros H a b Ha Hab Hb.
+  - unfold len in Hb. cbn in Hb. lia.
+  - rewrite len_cons in Hb. destruct (Z.eq_dec a 0) as [->|Hne].
+    + rewrite (qnth_cons x t b) by lia. unfold qnth at 1. cbn [Z.to_nat nth].
+      apply incrb_head; [exact H|lia].
+    + rewrite !qnth_cons by lia. apply IH; try lia.
+      cbn [incrb] in H. destruct t as [|y t']; [reflexivity|]. apply andb_prop in H. apply H.
+Qed.
